@@ -76,6 +76,18 @@ func sigOf(l labels.Labels, vm *parser.VectorMatching) string {
 	return lb.String()
 }
 
+// mustBeUnique: whether the matching signatures on a side (0 = left, 1 = right)
+// have to be unique: both sides for one-to-one, the "one" side otherwise.
+func mustBeUnique(card parser.VectorMatchCardinality, side int) bool {
+	switch card {
+	case parser.CardManyToOne:
+		return side == 1
+	case parser.CardOneToMany:
+		return side == 0
+	}
+	return true
+}
+
 // binopSignatureCollision reports whether some vector/vector binary operator
 // of the query has, on one of its sides, two distinct series (as computed by
 // the reference engine over the case's window) with the same matching signature.
@@ -104,7 +116,10 @@ func binopSignatureCollision(c *Case) bool {
 			// what differs for a collision no sample shows is which one-side
 			// series the included labels are copied from: look at the series
 			// lists the engine's own operators enumerate for the two sides
-			for _, side := range []parser.Expr{b.LHS, b.RHS} {
+			for i, side := range []parser.Expr{b.LHS, b.RHS} {
+				if !mustBeUnique(b.VectorMatching.Card, i) {
+					continue
+				}
 				seen := map[string]string{}
 				for _, l := range engineSeries(c, side.String()) {
 					sg := sigOf(l, b.VectorMatching)
@@ -117,6 +132,9 @@ func binopSignatureCollision(c *Case) bool {
 		}
 		for i := 0; i < 2; i++ {
 			side := []parser.Expr{b.LHS, b.RHS}[i%2]
+			if !mustBeUnique(b.VectorMatching.Card, i) {
+				continue
+			}
 			var qo *promql.QueryOpts
 			if cfg.QueryLookback != 0 {
 				qo = &promql.QueryOpts{LookbackDelta: cfg.QueryLookback}
